@@ -87,7 +87,10 @@ Definition gcase_diag (c : gcase) : list bool :=
   let intel := intel_of (gc_grid c) in
   let els := fun e => nth e (gd_els (gc_grid c)) (0, 0, 0)%nat in
   [ vec_ok (gc_tol c) (length (gc_proj c)) (project nel dim (gc_rule c) intel Sp ev (gf_f c)) (gc_proj c);
-    vec_ok (gc_tol c) dim (integrate nel (gc_rule c) intel Sp ev (gf_coef c)) (gc_int c);
+    (* the code as it stands (multipliers applied twice) or the repaired code (docs/fixes/c13_integrate_multipliers.diff);
+       the two differ only for signed multipliers, where the search reports the finding *)
+    vec_ok (gc_tol c) dim (integrate nel (gc_rule c) intel Sp ev (gf_coef c)) (gc_int c) ||
+    vec_ok (gc_tol c) dim (integrate_direct nel (gc_rule c) intel Sp ev (gf_coef c)) (gc_int c);
     forallb (fun d => vec_ok (gc_tol c) nel (fun e => eval_centers (gc_third c) Sp ev (gf_coef c) e d)
                              (nth d (gc_centers c) [])) (seq 0 dim);
     forallb (fun d => vec_ok (gc_tol c) (gc_nvert c)
@@ -104,9 +107,14 @@ Record mcase := mkMCase {
 Definition mcase_ok (c : mcase) : bool :=
   let G := to_geom (mc_grid c) in
   let b := fun k d => basis_of k G (mc_gx c) (mult_of d) (nm_of d) in
-  matrix_ok (mc_tol c)
-    (mult_op_core (gd_nel (mc_grid c)) (dim_of (mc_kt c)) (mc_rule c) (intel_of (mc_grid c))
-                  (to_space (mc_test c)) (to_space (mc_trial c)) (to_space (mc_fun c))
-                  (b (mc_kt c) (mc_test c)) (b (mc_kr c) (mc_trial c)) (b (mc_kf c) (mc_fun c))
-                  (fun k => nth k (mc_gcoef c) 0))
-    (mc_rows c) (mc_cols c) (mc_impl c).
+  let run := fun (f : nat -> nat -> list (P2 * dy) -> (nat -> dy) -> space dy -> space dy -> space dy ->
+                      @basisfn dy -> @basisfn dy -> @basisfn dy -> (nat -> dy) -> list (@trip dy)) =>
+    matrix_ok (mc_tol c)
+      (f (gd_nel (mc_grid c)) (dim_of (mc_kt c)) (mc_rule c) (intel_of (mc_grid c))
+         (to_space (mc_test c)) (to_space (mc_trial c)) (to_space (mc_fun c))
+         (b (mc_kt c) (mc_test c)) (b (mc_kr c) (mc_trial c)) (b (mc_kf c) (mc_fun c))
+         (fun k => nth k (mc_gcoef c) 0))
+      (mc_rows c) (mc_cols c) (mc_impl c) in
+  (* the code as it stands (integration element read at the position) or the repaired code
+     (docs/fixes/c13_multiplication_operator.diff); they differ only on restricted supports *)
+  run mult_op_core || run mult_op_intended.
